@@ -380,6 +380,12 @@ class FileScan(ast.NodeVisitor):
                 return [('SUnknown', _unq(e))]
             if isinstance(f, ast.Name) and f.id == 'str' and len(e.args) == 1 and not e.keywords:
                 return self.parts(e.args[0], depth + 1)
+        if isinstance(e, ast.BoolOp) and isinstance(e.op, ast.Or) and isinstance(e.values[0], ast.Name):
+            # `e or type(e).__name__`: the caught exception's text, or its class name when the text is empty
+            first = self.parts(e.values[0], depth + 1)
+            rest = [self.atom(v) for v in e.values[1:]]
+            if len(first) == 1 and first[0][0] == 'SExc' and all(r[0] == 'STypeName' for r in rest):
+                return [('SExc', first[0][1], _unq(e))]
         if isinstance(e, ast.Name):
             key = e.id
             if (self.func(), key) in self.wl_fn or key in self.wl:
@@ -545,6 +551,9 @@ class FileScan(ast.NodeVisitor):
                              r'|mask_value|cipher_mode|padding_method|hashing_algorithm)$', base) and \
                         not re.search(r'(key_value|\.value\.value)', base):
                     return ('SEnumName', txt)
+        if isinstance(e, ast.IfExp) and all(isinstance(b, ast.Constant) and isinstance(b.value, str) and len(b.value) <= 40
+                                            for b in (e.body, e.orelse)):
+            return ('SEnumName', txt)      # one of two literal words
         if isinstance(e, ast.BinOp) and isinstance(e.op, (ast.Mult, ast.Add, ast.Sub, ast.FloorDiv)):
             l, r = self.atom(e.left), self.atom(e.right)
             if l[0] == 'SNum' and r[0] == 'SNum':
